@@ -31,6 +31,18 @@ typedef struct { void* data; size_t size; } VF_Vec;
 #define VF_PUSH(v, e) do { __CPROVER_assert((v).size < (v).cap, "VF_PUSH within reserved capacity"); (v).data[(v).size] = (e); (v).size++; } while (0)
 #define VF_POP(v) do { __CPROVER_assert((v).size > 0, "pop_back on non-empty vector"); (v).size--; } while (0)
 #define VF_CLEAR(v) do { (v).size = 0; } while (0)
+/* G3': push trace — next to every stored element the index of the input element it was read from */
+#define VF_RESERVE_T(v, n) do { (v).cap = (n); (v).size = 0; (v).data = malloc(((n) ? (n) : 1) * sizeof(*(v).data)); (v).src = malloc(((n) ? (n) : 1) * sizeof(size_t)); __CPROVER_assume((v).data != NULL && (v).src != NULL); } while (0)
+#define VF_PUSHI(v, from, idx) do { __CPROVER_assert((v).size < (v).cap, "VF_PUSH within reserved capacity"); (v).data[(v).size] = (from).data[idx]; (v).src[(v).size] = (idx); (v).size++; } while (0)
+/* G3'' ghost observation of an output vector: instead of storing the elements, record for one arbitrary, fixed
+   position g_k the source index of the element pushed at g_k and at g_k+1, and of the first and the latest push.
+   Sound for "for every position k" properties of vectors that are only appended to and never read back. */
+#define VF_OBS_DECL size_t g_k, g_src_k, g_src_k1, g_src_first, g_src_last;
+#define VF_PUSHG(v, idx) do { __CPROVER_assert((v).size < (v).cap, "VF_PUSH within reserved capacity"); \
+    if ((v).size == 0) g_src_first = (idx); if ((v).size == g_k) g_src_k = (idx); if ((v).size == g_k + 1) g_src_k1 = (idx); \
+    g_src_last = (idx); (v).size++; } while (0)
+#define VF_RESERVE_G(v, n) do { (v).cap = (n); (v).size = 0; } while (0)
+#define VF_NEW(v, n) do { (v).size = (n); (v).data = calloc(((n) ? (n) : 1), sizeof(*(v).data)); __CPROVER_assume((v).data != NULL); } while (0)
 typedef struct { bool* data; size_t size; } VecBool;
 typedef struct { double* data; size_t size; } VecDouble;
 #define VF_CANARY() __CPROVER_assert(0, "VF_CANARY reachability")
